@@ -73,7 +73,9 @@ def run_case(H, ex, case):
         spec = {}
         for i, n in enumerate(names):
             spec[n] = dict(superclass=(names[i + 1] if i + 1 < d else None), properties={'P': dict(variant_type='Int32')} if i == d - 1 else {},
-                           defaults=({'P': ('Int32', {'v': 100 + i})} if i in at else {}))
+                           # filler: classes that do not define P still record other defaults (as every class of the bundled
+                           # database does: Archivable, UniqueId, ...), so "has some defaults" must not stop the walk
+                           defaults=({'P': ('Int32', {'v': 100 + i})} if i in at else ({'Q': ('Int32', {'v': 7})} if case.get('filler') else {})))
         db = H.database(spec)
         f = P.resolve('ReflectionDatabase::find_default_property')
         for start in range(d):
